@@ -4,6 +4,13 @@ spec/Selective.tla        generic selective element (Consume / PassUnselected / 
                           invariants UnselIdentityOrder, SelIndependent, NoFsForUnsel, Metamorphic
                           (run(interleave(A, B)) = interleave(run(A), B))
 spec/Trace_Selective.tla  validation of event logs recorded from the real elements
+spec/SelectiveValue.tla   the anatomy of one value in front of a selective element: data kind (plain, of the element's
+                          type, with parts that carry contexts, a one-shot source) x shape of the context along the
+                          option path of the element (absent / cut by a non-dictionary at any level / leaf values) x
+                          selection rule; declarative Verdict, operational Split / Descend / DataTest / Decide / Pass,
+                          invariants LookupAgrees, DecisionAgrees, UnselUntouched
+spec/Trace_SelectiveValue.tla  what the real elements did to each such value (same object, cells touched, source
+                          advanced, raised) validated against that machine
 lenaverif/selectivelib.py the ten elements with selected / unselected samples, audit hook, stub converters
 """
 import concurrent.futures
@@ -17,6 +24,7 @@ from ..util import exc_name
 
 SYNC_ACTIONS = ("Consume", "PassUnselected", "EmitSel", "FsSel", "DoneSel", "EndInput", "Finish")
 ASYNC_ACTIONS = ("Consume", "FlushAny", "PollDone", "PassUnselected", "EmitSel", "Launch", "EndInput", "Finish")
+VALUE_ACTIONS = ("Split", "Descend", "DataTest", "Decide", "Pass", "Transform")
 
 
 def event_kind(trace, k):
@@ -89,6 +97,40 @@ def validate_all(ctx, scens):
     return None
 
 
+def value_kind(rec):
+    if rec["raised"]:
+        return "raised"
+    if not rec["same"]:
+        return "not-passed"
+    if rec["cursor"]:
+        return "source-consumed"
+    if rec["touched"]:
+        return "touched-" + "-".join(rec["touched"])
+    return "rejected"
+
+
+def validate_values(ctx, vrecs):
+    """vrecs: list of (element name, sample name, record).  One TLC run of Trace_SelectiveValue over all records; a
+    rejected record is reported, the other records of that element are set aside, the rest is validated again."""
+    remaining = list(vrecs)
+    rounds = 0
+    while remaining and rounds < 12:
+        rounds += 1
+        flat = [r for _, _, r in remaining]
+        acc = ctx.validate("Trace_SelectiveValue", "Trace_SelectiveValue.cfg", flat, label="values")
+        ctx.traces += min(acc, len(flat))
+        if acc >= len(flat):
+            return flat
+        name, sample, rec = remaining[acc]
+        ctx.violation("%s:value-%s:%s" % (name, value_kind(rec), sample),
+                      {"element": name, "sample": sample, "observation": rec,
+                       "legend": "the value is unselected under the rule of the element (SelectiveValue.tla Verdict): it "
+                                 "must be yielded as the same object, no cell (ctx, data, parts) touched, its one-shot "
+                                 "source not advanced, nothing raised"})
+        remaining = [it for it in remaining[acc + 1:] if it[0] != name]
+    return None
+
+
 def run(ctx):
     import lena   # noqa  (the tree under test must be importable)
     rnd = random.Random(ctx.seed)
@@ -99,14 +141,21 @@ def run(ctx):
     ctx.assume("LaTeXToPDF runs a stub command (cp) through create_command, PDFToPNG a stand-in pdftoppm first on PATH")
     # ------------------------------------------------------------------ design level
     # the four model-checking runs are independent of the replay: they run beside it and are joined at the end
-    mcpool = concurrent.futures.ThreadPoolExecutor(max_workers=4)
-    mcruns = [mcpool.submit(ctx.mc, "Selective", cfg, coverage=True, must_cover=cover) for cfg, cover in (
-        ("Selective_%s.cfg" % tag, SYNC_ACTIONS), ("Selective_async_%s.cfg" % tag, ASYNC_ACTIONS),
-        ("Selective_rep.cfg", SYNC_ACTIONS),
-        ("Selective_cut.cfg", ASYNC_ACTIONS + ("EndFirstRun", "StartSecond", "Abort")))]
-    recs = ctx.export("Selective", "Selective_%s_export.cfg" % tag, min_records=500)
-    recs_rep = ctx.export("Selective", "Selective_rep_export.cfg", min_records=100)
-    recs_cut = ctx.export("Selective", "Selective_cut_export.cfg", min_records=100)
+    mcpool = concurrent.futures.ThreadPoolExecutor(max_workers=9)
+    # the exports are needed first: they are started before the model-checking runs
+    exports = [mcpool.submit(ctx.export, mod, cfg, min_records=m) for mod, cfg, m in (
+        ("Selective", "Selective_%s_export.cfg" % tag, 500), ("Selective", "Selective_rep_export.cfg", 100),
+        ("Selective", "Selective_cut_export.cfg", 100), ("SelectiveValue", "SelectiveValue_%s_export.cfg" % tag, 300))]
+    mcruns = [mcpool.submit(ctx.mc, mod, cfg, coverage=True, must_cover=cover) for mod, cfg, cover in (
+        ("Selective", "Selective_%s.cfg" % tag, SYNC_ACTIONS), ("Selective", "Selective_async_%s.cfg" % tag, ASYNC_ACTIONS),
+        ("Selective", "Selective_rep.cfg", SYNC_ACTIONS),
+        ("Selective", "Selective_cut.cfg", ASYNC_ACTIONS + ("EndFirstRun", "StartSecond", "Abort")),
+        ("SelectiveValue", "SelectiveValue_%s.cfg" % tag, VALUE_ACTIONS))]
+    try:
+        recs, recs_rep, recs_cut, verdicts = [f.result() for f in exports]
+    except BaseException:
+        mcpool.shutdown(wait=True)
+        raise
     expected = {}
     maxfan = 0
 
@@ -121,6 +170,7 @@ def run(ctx):
                           if list(r["bobj"]) != list(range(1, len(r["bobj"]) + 1))))
     cut_scen = sorted(set((tuple(r["pat"]), r["cut"], r["kind"]) for r in recs_cut if r["cut"]))
     ctx.sample({"spec_behaviour": recs[len(recs) // 2]})
+    ctx.sample({"spec_value_verdict": next(v for v in verdicts if v["ck"] == "cut" and v["verdict"] == "unselected")})
 
     # ------------------------------------------------------------------ the real elements
     scratch = os.path.join(ctx.workdir, "scratch")
@@ -130,6 +180,8 @@ def run(ctx):
     os.environ["PATH"] = bindir + os.pathsep + oldpath
     specs = sl.element_specs()
     scens = []
+    vrecs = []
+    vshapes = {}
     used_b = {}
     layout_seen = set()
     try:
@@ -166,13 +218,30 @@ def run(ctx):
             # a deterministic slice that differs between configurations (together they cover every exported scenario)
             todo += [(p, False, None, bo, 0, "end") for p, bo in (rep_scen[si::max(1, len(rep_scen) // nrep)])[:nrep]]
             todo += [(p, False, None, None, c, kd) for p, c, kd in (cut_scen[si::max(1, len(cut_scen) // ncut)])[:ncut]]
+            # value anatomy: every value shape that SelectiveValue.tla calls unselected under the rule of this element,
+            # several of them interleaved with selected samples (quick tier: a third of them for the audit configurations)
+            spec.G = sl.anatomy_values(spec, verdicts)
+            if not spec.G:
+                raise core.MachineryError("no value shapes for %s" % spec.name)
+            gsel = spec.G if (ctx.thorough or not audit_cfg) else spec.G[si % 3::3]
+            # (elements that start a process for every selected value get one selected sample per scenario)
+            costly = spec.is_async or spec.name.startswith("PDFToPNG")
+            gchunk = 5 if ctx.thorough else 8
+            for c in range(0, len(gsel), gchunk):
+                names = [n for n, _, _ in gsel[c:c + gchunk]]
+                p = [True] * min((2 if costly else 3) if ctx.thorough else (1 if costly else 2), len(anames_all)) + \
+                    [False] * len(names)
+                rnd.shuffle(p)
+                todo.append((tuple(p), True, names, None, 0, "end"))
             for pi, (pat, is_random, forced_b, bobj, cut, ckind) in enumerate(todo):
                 na, nb = sum(1 for x in pat if x), sum(1 for x in pat if not x)
                 if spec.is_async and na > len(anames_all):
                     continue        # converter results are attributed by file name: no duplicates
                 anames = [anames_all[(pi + k) % len(anames_all)] for k in range(na)]
                 bnames = [bnames_all[(pi * 3 + k) % len(bnames_all)] for k in range(nb)]
-                if forced_b is not None:
+                if isinstance(forced_b, list):
+                    bnames = list(forced_b)
+                elif forced_b is not None:
                     anames = anames_all[:na]
                     bnames = [forced_b]
                 if bobj is not None:
@@ -195,10 +264,19 @@ def run(ctx):
                                        "unselected": bnames, "exception": what, "schedule": "waiting"})
                     if tracew is not None:
                         scens.append((spec.name, scw, tracew))
+                    vrecs.extend((spec.name, n, r) for n, r in scw.vrecords)
                 for kind, sample, what in sc.problems:
+                    if isinstance(forced_b, list):
+                        # generated value shapes: one report per element and kind of failure
+                        if (spec.name, kind, what.split("(")[0]) in layout_seen:
+                            continue
+                        layout_seen.add((spec.name, kind, what.split("(")[0]))
                     ctx.violation("%s:%s:%s:%s" % (spec.name, kind, what.split("(")[0], sample),
                                   {"element": spec.name, "pattern": list(pat), "selected": anames,
                                    "unselected": bnames, "exception": what})
+                vrecs.extend((spec.name, n, r) for n, r in sc.vrecords)
+                for n, r in sc.vrecords:
+                    vshapes.setdefault((r["d"], r["ck"]), set()).add(spec.name)
                 if trace is None:
                     continue
                 for b in bnames:
@@ -244,6 +322,24 @@ def run(ctx):
         return None
     if any(corrupt(r) for r in demo[:60]):
         ctx.binding_demo("Trace_Selective", "Trace_Selective.cfg", demo, corrupt, limit=60)
+    # ------------------------------------------------------------------ C2S: what happened to every value shape
+    need = set((v["d"], v["ck"]) for v in verdicts if v["verdict"] == "unselected" and v["depth"] <= 2)
+    if need - set(vshapes):
+        raise core.MachineryError("value shapes never met by a real element: %s" % sorted(need - set(vshapes)))
+    vflat = validate_values(ctx, vrecs)
+    ctx.extra["value_shapes"] = {"records": len(vrecs), "distinct_samples": len(set((e, n) for e, n, _ in vrecs)),
+                                 "kinds": sorted("%s/%s" % k for k in vshapes)}
+    if vflat is not None:
+        ctx.sample({"recorded_value": next((r for r in vflat if r["ck"] == "cut"), vflat[0])})
+
+        def corrupt_value(r):
+            if r.get("d") == "lazy":
+                return dict(r, cursor=1)        # the source of an unselected value has been advanced
+            if r.get("ck") != "bare":
+                return dict(r, touched=["ctx"])
+            return None
+        if any(corrupt_value(r) for r in vflat[:80]):
+            ctx.binding_demo("Trace_SelectiveValue", "Trace_SelectiveValue.cfg", vflat, corrupt_value, limit=80)
     shutil.rmtree(scratch, ignore_errors=True)
     try:
         for f in mcruns:
@@ -256,6 +352,10 @@ def run(ctx):
              "(identity of unselected values with `is`, selected results matched to the reference run on A alone) "
              "must equal TLC's exported layout; C2S: the event log of every run (pulls, yields, audit-hook events, "
              "final directory snapshot vs reference) plus %d longer random interleavings per element validated by "
-             "Trace_Selective; non-trivial = at least one selected and one unselected value" % (
+             "Trace_Selective; value anatomy: every value shape SelectiveValue.tla calls unselected under the rule of an "
+             "element (data kind x context shape along the element's option path) built for that element, run "
+             "interleaved with selected samples, and what happened to it (same object, cells touched, one-shot source "
+             "advanced, raised) validated by Trace_SelectiveValue; non-trivial = at least one selected and one "
+             "unselected value" % (
                  4 if ctx.thorough else 3, 40 if ctx.thorough else 6),
         exhaustive=True)
